@@ -1,7 +1,10 @@
 (* Properties_C13.v -- C13: RTL testbench results do not depend on the power-on state.
    TbModel = hextb.cpp's load()/run()/handleSyscall() (hand model, tied by tools/c13.py) driving the generated RTL
    (RtlHex.design, regenerated from the working tree on every run) with Verilator's trigger semantics; a power-on state
-   [init] = pc, areg, breg, oreg, every memory word, and the four hidden trigger bits.  [Current] are the constants of
+   [init] = pc, areg, breg, oreg, every memory word, and the four hidden trigger bits.  [file_ok file]: the files hextb's
+   load() accepts and reads completely (4-byte header, at most 200000 words announced, all present, bytes in range);
+   [loaded_words file] = those words -- the debug tables behind the image are not loaded; any other file makes load()
+   throw and main return 1 without running (TbModel.tb_main, Example C13_loader_rejects).  [Current] are the constants of
    hextb.cpp as it is now (reset over times 1..9, requests sampled from time RESET_END - 1 = 9), [Previous] those between the
    two repairs (requests sampled only after reset), [Legacy] those of the pinned tree. *)
 From Coq Require Import ZArith List String.
@@ -26,7 +29,7 @@ Theorem C13_boot_canonical : forall (i : init) (file : list Z) (inp : inputs),
   (forall k, run Current RtlHex.design (8 + k) 0 (power_on i file) inp [] = run Current RtlHex.design k 0 st8 inp []) /\
   r_pc (t_s st8) = 0 /\ r_areg (t_s st8) = 0 /\ r_breg (t_s st8) = 0 /\ r_oreg (t_s st8) = 0 /\
   r_mem (t_s st8) = r_mem (t_s (power_on i file)) /\ t_time st8 = 8 /\ t_exit st8 = 0 /\
-  (bytes_ok file -> sys_request Current RtlHex.design (tick Current RtlHex.design st8) = (wire RtlHex.design (t_s st8) n_fdata =? 211)) /\
+  (file_ok file -> sys_request Current RtlHex.design (tick Current RtlHex.design st8) = (wire RtlHex.design (t_s st8) n_fdata =? 211)) /\
   r_pc (t_s st10) = 0 /\ r_areg (t_s st10) = 0 /\ r_breg (t_s st10) = 0 /\ r_oreg (t_s st10) = 0 /\
   r_mem (t_s st10) = r_mem (t_s (power_on i file)) /\
   (forall j, (j < List.length (loaded_words file))%nat -> rd (r_mem (t_s st10)) (Z.of_nat j) = nth j (loaded_words file) 0) /\
@@ -37,7 +40,7 @@ Print Assumptions C13_boot_canonical.
 (* 2. execution begins at address 0: in the boot state the fetched byte is the first image byte, and the evaluation of
    time 11 is one clock edge of processor and memory from that state *)
 Theorem C13_fetch_from_zero : forall (i : init) (file : list Z) (b0 : Z) (rest : list Z),
-  bytes_ok file -> skipn 4 file = b0 :: rest ->
+  file_ok file -> 1 <= header file -> skipn 4 file = b0 :: rest ->
   let st := ticks Current RtlHex.design 10 (power_on i file) in
   r_pc (t_s st) = 0 /\ wire RtlHex.design (t_s st) n_fdata = b0 /\
   t_s (tick Current RtlHex.design st) = cycle RtlHex.design (t_s st).
@@ -52,19 +55,27 @@ Print Assumptions C13_fetch_from_zero.
    tools/c03.py and tools/c06.py).  The former hypothesis "the first instruction is not a system call" is gone: since the
    repair of hextb.cpp the request of the instruction at address 0 is sampled at the last reset edge
    (known_findings.json: fixed, kind first-instruction-svc; C13_first_instruction_svc below). *)
-Theorem C13_seed_independent : forall (fuel : nat) (i1 i2 : init) (file : list Z) (inp : inputs),
-  bytes_ok file -> well_behaved (Z.of_nat (List.length (loaded_words file))) (loaded_words file) inp ->
+Theorem C13_seed_independent_partial : forall (fuel : nat) (i1 i2 : init) (file : list Z) (inp : inputs),
+  file_ok file -> well_behaved (Z.of_nat (List.length (loaded_words file))) (loaded_words file) inp ->
   obs (run Current RtlHex.design fuel 0 (power_on i1 file) inp []) = obs (run Current RtlHex.design fuel 0 (power_on i2 file) inp []).
 Proof. exact seed_independent. Qed.
-Print Assumptions C13_seed_independent.
+Print Assumptions C13_seed_independent_partial.
+(* _partial: what is missing is the READ clause of well_behaved (runs in which a READ overwrites the word of its own SVC).
+   There the testbench's result differs from the ISA's (known finding), but it is expected to be the same for every
+   power-on state all the same; that is not proved, because the proof goes through the ISA run: *)
+Definition C13_seed_independent_full : Prop :=
+  forall (fuel : nat) (i1 i2 : init) (file : list Z) (inp : inputs),
+  file_ok file -> well_behaved0 (Z.of_nat (List.length (loaded_words file))) (loaded_words file) inp ->
+  obs (run Current RtlHex.design fuel 0 (power_on i1 file) inp []) = obs (run Current RtlHex.design fuel 0 (power_on i2 file) inp []).
 
 (* ... and that result is the ISA's, presented in the testbench's rhythm *)
-Theorem C13_run_is_isa : forall (fuel : nat) (i : init) (file : list Z) (inp : inputs) (ws : list Z) (D : Z -> bool),
-  bytes_ok file -> agree D (mem (boot ws)) (r_mem (t_s (power_on i file))) ->
+Theorem C13_run_is_isa_partial : forall (fuel : nat) (i : init) (file : list Z) (inp : inputs) (ws : list Z) (D : Z -> bool),
+  file_ok file -> agree D (mem (boot ws)) (r_mem (t_s (power_on i file))) ->
   (forall n, wb_mon D n (boot ws) inp = true) ->
   tb_view (run Current RtlHex.design fuel 0 (power_on i file) inp []) = isa_tb fuel (boot ws) inp.
 Proof. exact tb_is_isa_tb. Qed.
-Print Assumptions C13_run_is_isa.
+Print Assumptions C13_run_is_isa_partial.
+(* _partial for the same reason: wb_mon contains the READ clause; without it the equation is false (C06_tb_equals_sim_full_refuted) *)
 
 (* 4. with the pinned constants (reset from time 2, requests sampled on every high clock phase, unqualified memory write)
    the property is false: two power-on states of the same image and input with different results *)
@@ -83,13 +94,13 @@ Example C13_witnesses :
   outcome (run Current RtlHex.design 200 0 (power_on (planted 13 0 true) exit7_file) no_input []) = ([Exit 7], TReturned 7) /\
   outcome (run Current RtlHex.design 200 0 (power_on (planted 13 1 true) exit7_file) no_input []) = ([Exit 7], TReturned 7).
 Proof. exact legacy_witness. Qed.
-(* the hypotheses of C13_seed_independent hold for `proc main() is exit(7)` as compiled by xcmp *)
+(* the hypotheses of C13_seed_independent_partial hold for `proc main() is exit(7)` as compiled by xcmp *)
 Example C13_hypotheses_satisfiable :
-  bytes_ok exit7_file /\ well_behaved (Z.of_nat (List.length (loaded_words exit7_file))) (loaded_words exit7_file) no_input.
-Proof. split; [exact exit7_bytes_ok | exact exit7_well_behaved_loaded]. Qed.
+  file_ok exit7_file /\ well_behaved (Z.of_nat (List.length (loaded_words exit7_file))) (loaded_words exit7_file) no_input.
+Proof. split; [exact exit7_file_ok | exact exit7_well_behaved_loaded]. Qed.
 (* a binary whose FIRST instruction is OPR SVC (EXIT 42): with the constants between the two repairs the call was never
    serviced (the run went on and exited with 9); now it exits with 42 from every power-on state, as the ISA does, and
-   the binary satisfies the hypotheses of C13_seed_independent *)
+   the binary satisfies the hypotheses of C13_seed_independent_partial *)
 Example C13_first_instruction_svc :
   outcome (run Previous RtlHex.design 60 0 (power_on (planted 0 0 false) first_svc_file) no_input []) = ([Exit 9], TReturned 9) /\
   outcome (run Current RtlHex.design 60 0 (power_on (planted 0 0 false) first_svc_file) no_input []) = ([Exit 42], TReturned 42) /\
@@ -97,3 +108,14 @@ Example C13_first_instruction_svc :
   (exists a', Isa.run 5 (boot (loaded_words first_svc_file)) no_input [] = ([Exit 42], no_input, a', Exited 42)) /\
   well_behaved 5 (loaded_words first_svc_file) no_input.
 Proof. exact first_svc_witness. Qed.
+(* the loader: files without header or announcing more than 200000 words are rejected before run() starts; the symbol
+   table of exit7_file (61 bytes, header 9) is not loaded *)
+Example C13_loader_rejects :
+  tb_main Current RtlHex.design 100 0 (planted 0 0 false) [1; 0] no_input = None /\
+  tb_main Current RtlHex.design 100 0 (planted 0 0 false) [] no_input = None /\
+  tb_main Current RtlHex.design 100 0 (planted 0 0 false) [65; 13; 3; 0; 211; 0; 0; 0] no_input = None /\
+  (exists r, tb_main Current RtlHex.design 100 0 (planted 0 0 false) exit7_file no_input = Some r /\ outcome r = ([Exit 7], TReturned 7)).
+Proof. exact loader_rejects. Qed.
+Example C13_loaded_is_the_image :
+  header exit7_file = 9 /\ List.length (loaded_words exit7_file) = 9%nat /\ List.length exit7_file = 61%nat.
+Proof. exact exit7_loaded. Qed.
